@@ -11,6 +11,7 @@ lazy_static! {
     static ref RT: tokio::runtime::Runtime = tokio::runtime::Runtime::new().unwrap();
 }
 
+use crate::errors::QueryError;
 use crate::mem_store::column::Column;
 use crate::observability::QueryPerfCounter;
 use crate::scheduler::inner_locustdb::InnerLocustDB;
@@ -22,7 +23,7 @@ pub trait ColumnLoader: Sync + Send + 'static {
         partition: PartitionID,
         column_name: &str,
         perf_counter: &QueryPerfCounter,
-    ) -> Option<Vec<Column>>;
+    ) -> Result<Option<Vec<Column>>, QueryError>;
     fn load_column_range(
         &self,
         start: PartitionID,
